@@ -734,11 +734,12 @@ def oracle_frame(ctx, sc, src, vals_by_root, steps):
             if kind in ("subclass-mixin", "subclass-with-field"):
                 bad = fresh_subclass_agrees(ctx, sc, mod, cn, n, Dl, kw, vals_by_root)
                 if bad:
-                    ctx.fail(f"fresh subclass _S{n}({cn}) disagrees through its entry points: {bad}",
+                    ctx.fail(f"fresh subclass _S{n}({cn}) disagrees through its entry points: {bad[0]}",
                              {"entry": "frame-fresh-subclass", "source": src, "class": cn, "dialect": sc.dialect,
-                              "creations": list(log), "observed": bad, "expected": "to_dict == BasicEncoder(S).encode"},
-                             {"kind": "frame-fresh-subclass"})
-                    return
+                              "creations": list(log), "observed": bad[0], "expected": "to_dict == BasicEncoder(S).encode"},
+                             bad[1])
+                    if bad[1]["kind"] == "frame-fresh-subclass":
+                        return
             after = [res_key(L.call(p[1])) for p in probes]
             ctx.count(("frame", sc.sid, n, kind), n=len(probes))
             for p, b, a in zip(probes, before, after):
@@ -789,9 +790,14 @@ def fresh_subclass_agrees(ctx, sc, mod, cn, n, Dl, kw, vals_by_root):
                 ctx.hist("oracle_kind", "skipped:lazy-dialect-first-call(fresh subclass)")
                 return None
             if a != b:
-                return f"_S{n}.to_dict = {show(a)} but BasicEncoder(_S{n}).encode = {show(b)}"
+                # the known static-dispatch findings can sit in the inherited fields (classified at the base class)
+                sig = signature_of(sc, ("data", cn), v, a, b) if a[0] == "ok" and b[0] == "ok" else {"kind": "frame-fresh-subclass"}
+                if sig.get("kind") in ("unclassified", "none"):
+                    sig = {"kind": "frame-fresh-subclass"}
+                return (f"_S{n}.to_dict = {show(a)} but BasicEncoder(_S{n}).encode = {show(b)}", sig)
             if c is not None and c != d:
-                return f"after calling the subclass: {cn}.to_dict = {show(c)} but BasicEncoder({cn}).encode = {show(d)}"
+                return (f"after calling the subclass: {cn}.to_dict = {show(c)} but BasicEncoder({cn}).encode = {show(d)}",
+                        {"kind": "frame-fresh-subclass"})
             return None
     return None
 
